@@ -183,6 +183,39 @@ theorem spec_readName_escaped (n d : List Nat) (hb : allB (fun b => b < 256) n =
       simp [incNameBody, hp, Syntax.readNameSt, h35, h1, h2, ih hb.2, Syntax.consOut]
       omega
 
+/-! ### `escape_pdf_name_bytes` (commit 16fac722): what `write_object_value` emits for names and keys -/
+
+theorem nameRegular_regular (b : Nat) (h : nameRegular b = true) :
+    Syntax.isRegular b = true ∧ b ≠ 35 := by
+  simp [nameRegular] at h
+  simp [Syntax.isRegular, Syntax.isWhite, Syntax.isDelim]
+  omega
+
+/-- **every** byte string survives `escape_pdf_name_bytes` + the independent reader -/
+theorem spec_readName_escName (n d : List Nat) (hb : NameBytes n = true)
+    (hd : specEnds d = true) : Syntax.readName (escapeName n ++ d) = some (n, d) := by
+  unfold Syntax.readName
+  unfold NameBytes at hb
+  induction n with
+  | nil =>
+    cases d with
+    | nil => rfl
+    | cons b r =>
+      simp [specEnds] at hd
+      simp [escapeName, Syntax.readNameSt, hd]
+  | cons x xs ih =>
+    rw [allB_cons] at hb
+    have hx : x < 256 := by simpa using hb.1
+    by_cases hp : nameRegular x = true
+    · have := nameRegular_regular x hp
+      simp [escapeName, hp, Syntax.readNameSt, this.1, this.2, ih hb.2, Syntax.consOut]
+    · have h1 := hexVal_hexDigitUpper (x / 16 % 16) (by omega)
+      have h2 := hexVal_hexDigitUpper (x % 16) (by omega)
+      simp only [Bool.not_eq_true] at hp
+      have h35 : Syntax.isRegular 35 = true := by decide
+      simp [escapeName, hp, Syntax.readNameSt, h35, h1, h2, ih hb.2, Syntax.consOut]
+      omega
+
 /-! ### literal strings -/
 
 /-- `escape_pdf_string_bytes` + the independent reader: exact for every byte string without CR -/
